@@ -15,13 +15,13 @@ RULE = ('Cases: FASTA record sets built with `ska build -k K [--single-strand]` 
         'Forced kinds for every odd k in 5..63 and both strand modes: records of length k-1/k/k+1, N exactly k+1/k/k+2 '
         'from the record end, one k-mer repeated with 2..4 middles in both orientations, self-complementary arms, a record '
         'and its reverse complement, input with no window (must be refused); plus random records (mixed case, N runs, '
-        'wrapping), multi-sample builds, builds of 20..160 samples with --threads 2..16, and several builds with different k inside one process (library route, harness).  A case is non-trivial when the model has at least one window; distinct = '
+        'wrapping), multi-sample builds, three inputs per run of 6..80 kb (up to 300 kb in thorough; tables of thousands to hundreds of thousands of rows), builds of 20..160 samples with --threads 2..16, and several builds with different k inside one process (library route, harness).  A case is non-trivial when the model has at least one window; distinct = '
         'distinct (k, strand mode, record set).')
 ASSUMPTIONS = ['the reference model in vlib/model.py states the specification correctly',
                'file names s<i>.fa give sample names s<i>',
                'a 15% slice is also run on the overflow-checked build; its panics are diagnostics, the release build decides']
 REQUIRED = {'quick': ['kind:len', 'kind:nend', 'kind:repeat', 'kind:pal', 'kind:rcrec', 'kind:empty', 'kind:random',
-                      'kind:multi', 'kind:manythreads', 'kind:inprocess', 'inprocess_builds_compared', 'palindromic_rows', 'refusals_correct', 'width64', 'width128', 'nk_without_full_info_compared']}
+                      'kind:multi', 'kind:manythreads', 'kind:inprocess', 'inprocess_builds_compared', 'palindromic_rows', 'refusals_correct', 'width64', 'width128', 'nk_without_full_info_compared', 'kind:huge', 'tables_over_4096_rows']}
 REQUIRED['thorough'] = REQUIRED['quick']
 
 KINDS = ['len', 'nend', 'repeat', 'pal', 'rcrec', 'empty']
@@ -43,6 +43,9 @@ def plan(tier, seed, rng, scale):
         descs.append({'kind': kind, 'k': rng.choice(G.ALL_K), 'rc': rng.random() < 0.6, 'seed': rng.getrandbits(32)})
     for i, d in enumerate(descs):
         d['chk'] = (i % 7 == 0)
+    for i, hz in enumerate([6000, 20000, 80000] if tier == 'quick' else [6000, 20000, 80000, 150000, 300000, 80000]):
+        # thousands to hundreds of thousands of rows: read-out, save and build beyond any block or buffer size
+        descs.insert(40 + 17 * i, {'kind': 'huge', 'k': rng.choice([15, 21, 31, 33, 41]), 'rc': rng.random() < 0.6, 'seed': rng.getrandbits(32), 'huge': hz, 'chk': False})
     for i in range(int((10 if tier == 'quick' else 100) * scale)):
         descs.append({'kind': 'manythreads', 'k': rng.choice([9, 15, 31, 33]), 'rc': True, 'seed': rng.getrandbits(32),
                       'threads': rng.choice([2, 4, 8, 16]), 'chk': False})
@@ -121,6 +124,9 @@ def gen_records(desc):
         else:
             recs = [G.rseq(rng, rng.randint(1, k - 1)) for _ in range(3)]
         return [recs]
+    if kind == 'huge':
+        n1 = rng.randint(desc['huge'] // 3, 2 * desc['huge'] // 3)
+        return [[G.noisy_seq(rng, n1, pn=rng.choice([0, 0.0005])), G.rseq(rng, desc['huge'] - n1)]]
     if kind in ('random', 'long'):
         recs = []
         for _ in range(rng.randint(1, 4)):
@@ -290,6 +296,9 @@ def run_case(desc, ctx):
                 else:
                     res.count('nk_without_full_info_compared')
         if variant == 'rel':
+            if len(expected) > 4096:
+                res.count('tables_over_4096_rows')
+                res.see('huge_rows', len(expected))
             res.count('rows_compared', len(expected))
             for row in expected.values():
                 for b in row:
